@@ -370,6 +370,7 @@ pub fn op_strategy(p: &Profile) -> BoxedStrategy<Op> {
         1 => (slot(), text_arg_strategy(p)).prop_map(|(slot, text)| Op::AddAssign { slot, text }),
         1 => (slot(), text_arg_strategy(p)).prop_map(|(slot, text)| Op::Add { slot, text }),
         2 => (slot(), pieces_strategy(p)).prop_map(|(slot, d)| Op::Write { slot, d }),
+        1 => (slot(), slot(), 0u8..10).prop_map(|(slot, from, spec)| Op::WriteArg { slot, from, spec }),
     ]
     .boxed();
     let trunc = prop_oneof![
@@ -542,6 +543,7 @@ pub mod bytes {
                 33..=34 => Op::Reserve { slot, n: size(&mut u, &grid), try_ },
                 35 => Op::ShrinkTo { slot, n: size(&mut u, &grid), try_ },
                 36 => Op::ShrinkToFit { slot, try_ },
+                37 if u.ratio(1u8, 4u8).unwrap_or(false) => Op::WriteArg { slot, from: other, spec: u.int_in_range(0u8..=9).unwrap_or(0) },
                 37 => Op::Extend { slot, it: iter(&mut u, &grid) },
                 38 => Op::Write { slot, d: pieces(&mut u) },
                 _ => Op::Compare { a: slot, b: other },
